@@ -43,10 +43,14 @@ class Ctx:
         self.atoms, self.rng, self._moving_indices = atoms, rng, np.asarray(moving)
 
 
-def build_atoms(gsize, cellname):
+def build_atoms(gsize, cellname, custom_masses=False, outside=False):
     sym, pos = GROUPS[gsize]
     # one spectator atom in front so that moving indices are not 0..k-1
     atoms = Atoms("Ar" + sym, positions=[[4.0, 4.2, 3.9], *pos], cell=CELLS[cellname], pbc=True)
+    if custom_masses:  # user-set masses (isotopes): the centre of mass differs from the standard one
+        atoms.set_masses(atoms.get_masses() * np.array([1.0, 2.5, 1.0, 3.0, 0.5][: len(atoms)]))
+    if outside:  # the group sits in a neighbouring periodic image / straddles a face
+        atoms.positions[1:] += CELLS[cellname][0] - 0.4 * CELLS[cellname][1]
     return atoms, np.arange(1, gsize + 1)
 
 
@@ -85,19 +89,22 @@ def task_displacement(arg):
     op_name, K, cellname, gsize = arg["op"], arg["K"], arg["cell"], arg["group"]
     counters = {"evaluations": 0, "nontrivial": 0}
     viol, seen, add = _adder()
-    steps = [1e-3, 0.1, 2.5] if op_name in ("box", "ball", "sphere") else [None]
+    steps = [1e-3, 0.1, 2.5] if op_name in ("box", "ball", "sphere") else [None, "custom-masses", "outside-cell"]
     for s in steps:
+        variant = s if isinstance(s, str) else None
+        if variant:
+            s = None
         op = {"box": lambda: Box(s), "ball": lambda: Ball(s), "sphere": lambda: Sphere(s), "trans": Translation, "rot": Rotation, "transrot": TranslationRotation}[op_name]()
         ndraw = {"box": 3, "ball": 3, "sphere": 2, "trans": 3, "rot": 3, "transrot": 6}[op_name]
         sig0 = f"C10/{op_name}"
-        where0 = f"step={s} cell={cellname} group={gsize}"
+        where0 = f"step={s} cell={cellname} group={gsize}" + (f" {variant}" if variant else "")
         results, inv = [], []
         grids = [("mid", midpoints(K))]
         if op_name in ("box", "ball", "sphere", "trans"):
             grids.append(("ext", EXT + [0.5]))
         for gname, qs1 in grids:
             for q in itertools.product(qs1, repeat=ndraw):
-                atoms, moving = build_atoms(gsize, cellname)
+                atoms, moving = build_atoms(gsize, cellname, custom_masses=variant == "custom-masses", outside=variant == "outside-cell")
                 rng = QuantileRNG(list(q) + [0.5] * 6)
                 ctx = Ctx(atoms, rng, moving)
                 before = atoms.positions[moving].copy()
@@ -256,6 +263,11 @@ def task_deformation(arg):
             qq = list(q) + [0.35, 0.65, 0.8, 0.1, 0.5, 0.5]
             F0 = np.asarray(cls(0.3).calculate(Ctx(atoms, QuantileRNG(qq), moving)), float)
             F = np.asarray(cls(0.3, mask=mask.copy()).calculate(Ctx(atoms, QuantileRNG(qq), moving)), float)
+            op_late = cls(0.3, mask=~mask) if bits % 2 else cls(0.3)
+            op_late.mask = mask.copy()  # the documented attribute assigned after construction
+            F_late = np.asarray(op_late.calculate(Ctx(atoms, QuantileRNG(qq), moving)), float)
+            if np.abs(F_late - F).max() > 0:
+                add(f"C10/{kind}/mask/mask-assigned-after-construction-not-honoured", f"mask {mask.astype(int).tolist()}: F={js(F_late)} vs {js(F)}")
             counters["evaluations"] += 1
             if not mask.all():
                 counters["nontrivial"] += 1
